@@ -1082,8 +1082,11 @@ class PyExec:
         if isinstance(op, (ast.Is, ast.IsNot)):
             if isinstance(b, Const) and b.v is None:
                 r = isinstance(a, Const) and a.v is None
-                if isinstance(a, Opaque):
-                    raise Unsupported("is None on opaque")
+                if isinstance(a, Opaque) and a.what == "base-array":
+                    r = False
+                elif isinstance(a, (Opaque, BoundMethod)):
+                    # an attribute or value this interpreter has no model of: never guess
+                    raise Unsupported("is None on a value without a model (%s)" % (getattr(a, "what", None) or getattr(getattr(a, "func", None), "name", "?")))
             elif isinstance(a, Ref) and isinstance(b, Ref):
                 r = a.oid == b.oid
             else:
@@ -1195,6 +1198,10 @@ class PyExec:
                 return [("val", Sym(z3.simplify(n), "int"), st)]
             if attr == "ndim":
                 return [("val", Const(len(v.shape)), st)]
+            if attr == "base":
+                # None for an array that owns its data (np.zeros), the owner for a view
+                owns = v.buf is None and v.base is None
+                return [("val", Const(None) if owns else Opaque("base-array"), st)]
             if attr == "itemsize" and v.dtype in DT:
                 return [("val", Const(v.itemsize()), st)]
             return [("val", BoundMethod(Builtin("arr." + attr), v), st)]
@@ -1570,6 +1577,14 @@ class PyExec:
                 return [("val", Const(bool(np.can_cast(np.dtype(self.dtype_name(args[0])), np.dtype(self.dtype_name(args[1]))))), st)]
             except (TypeError, Unsupported):
                 raise Unsupported("np.can_cast on non-dtype arguments")
+        if name in ("add", "subtract", "maximum", "minimum", "multiply", "bitwise_or") and any(isinstance(x, Arr) for x in args):
+            # a NumPy ufunc on arrays: with out= it stores into that array, otherwise a fresh array
+            outv = kwargs.get("out", args[2] if len(args) > 2 else None)
+            src = [x for x in args if isinstance(x, Arr)][0]
+            if isinstance(outv, Arr):
+                st.effects.append(("arr-store", outv, ("ufunc", name)))
+                return [("val", outv, st)]
+            return [("val", Arr(src.dtype, src.shape, data=uid("ufunc_" + name)), st)]
         if name in ("ZipFile", "open", "fdopen", "NamedTemporaryFile", "TemporaryFile"):
             # a file is opened by the code itself: recorded; the handle is opaque
             st.effects.append(("file-open", name, tuple(args), dict(kwargs)))
